@@ -1261,3 +1261,46 @@ def facet_edge_lengths(c):
     V = c.V("Lagrange", 1)
     v = TestFunction(V)
     return (ufl.MinFacetEdgeLength(c.mesh) + 2 * ufl.MaxFacetEdgeLength(c.mesh)) * v * ds
+
+
+# ============================================================================ mixed-dimensional / several meshes
+@builder
+def submesh_codim0(c, which=0):
+    """Arguments/coefficients on a second mesh of the same cell type (sub-mesh of codimension 0)."""
+    mesh2 = Mesh(basix.ufl.element("Lagrange", c.cell, c.cdeg, shape=(c.gdim,)))
+    V = c.V("Lagrange", 2)
+    W = FunctionSpace(mesh2, basix.ufl.element("Lagrange", c.cell, 1))
+    u = TrialFunction(V)
+    v = TestFunction(W)
+    f = Coefficient(W)
+    if which == 0:
+        return inner(grad(u), grad(v)) * dx(domain=c.mesh) + f * inner(u, v) * dx(domain=c.mesh)
+    return exp(0.3 * f) * inner(u, v) * ds(domain=c.mesh)
+
+
+@builder
+def mixed_dim_codim1(c, which=0):
+    """Exterior-facet integral of the cell mesh with test function / coefficient living on the facet mesh."""
+    fcell = {"triangle": "interval", "quadrilateral": "interval", "tetrahedron": "triangle", "hexahedron": "quadrilateral"}[c.cell]
+    fmesh = Mesh(basix.ufl.element("Lagrange", fcell, 1, shape=(c.gdim,)))
+    V = c.V("Lagrange", 2)
+    W = FunctionSpace(fmesh, basix.ufl.element("Lagrange", fcell, 1))
+    u = TrialFunction(V)
+    q = TestFunction(W)
+    f = Coefficient(V)
+    g = Coefficient(W)
+    dsm = ufl.Measure("ds", domain=c.mesh)
+    n = FacetNormal(c.mesh)
+    if which == 0:
+        return inner(f * g * grad(u), n * q) * dsm
+    return (1 + g * g) * inner(u, q) * dsm
+
+
+@builder
+def ridge_form(c, which=0):
+    """Integral over the ridges (codimension 2) of the cell."""
+    V = c.V("Lagrange", 2)
+    u, v = TrialFunction(V), TestFunction(V)
+    f = Coefficient(V)
+    dr = ufl.Measure("dr", domain=c.mesh)
+    return (1 + f * f) * inner(u, v) * dr if which == 0 else u.dx(0) * f * v * dr
